@@ -311,6 +311,13 @@ pub fn simulate(method: &str, tids: &[u32], table: &[u32]) -> Option<[u64; 3]> {
 fn gen_table(rng: &mut Rng, n: usize, method: &str, exact_avg: bool) -> (Vec<u32>, &'static str) {
     let npairs = n * n.saturating_sub(1) / 2;
     let style = rng.below(3);
+    if rng.chance(1, 8) && npairs >= 2 {
+        // distinct distances a few ulps apart (bit patterns next to 0.25, 1.0 or 3.0)
+        let base = *rng.pick(&[0x3e80_0000u32, 0x3f80_0000, 0x4040_0000]);
+        let mut offs: Vec<u32> = (0..(2 * npairs as u32 + 4)).collect();
+        rng.shuffle(&mut offs);
+        return (offs[..npairs].iter().map(|o| base + o).collect(), "near-ties");
+    }
     if method == "average" && exact_avg {
         // distinct integers < 2^12, scaled by 2^12: halving stays exact for 12 nested means
         let mut pool: Vec<u32> = (1..4096).collect();
@@ -336,6 +343,12 @@ fn gen_table(rng: &mut Rng, n: usize, method: &str, exact_avg: bool) -> (Vec<u32
         if seen.insert(v) {
             t.push(v);
         }
+    }
+    if rng.chance(1, 6) && !t.is_empty() {
+        // one pair of different sets at distance exactly 0
+        let i = rng.below(t.len() as u64) as usize;
+        t[i] = 0;
+        return (t, "with-zero");
     }
     (t, if style == 1 { "dense-ranks" } else { "random" })
 }
